@@ -1,6 +1,6 @@
 """Seed-vs-check table: every seeded change (seeded/<id>) is applied to a scratch copy of /repo/supvisors and checked with
-its own property plus every property that has a function under contract in a file the seed touches (C16 only for its
-own seeds: it aggregates the safe: obligations of the others).  Writes seeded/TABLE.json (used for DESIGN.md and to
+its own property plus every property whose proofs execute a function the seed touches (under contract or inlined as a
+callee: read from the evidence files; C16 only for its own seeds: it aggregates the safe: obligations of the others).  Writes seeded/TABLE.json (used for DESIGN.md and to
 fill `caught_by` in the meta files with --write-meta).   python tools/seed_table.py [-j N] [--write-meta] [ids...]"""
 import glob
 import json
@@ -26,6 +26,45 @@ def files_by_property():
     return out
 
 
+def touched_functions(seed):
+    """qualified names (module:Class.func) of the functions of the CURRENT /repo source that the seed's patch touches"""
+    import re
+    import subprocess
+    from pyvc.selftest import enclosing
+    out = set()
+    txt = open(os.path.join(seed['dir'], 'patch.diff')).read()
+    cur = None
+    for ln in txt.splitlines():
+        m = re.match(r'^\+\+\+ b/(supvisors/\S+)', ln)
+        if m:
+            cur = m.group(1)
+            continue
+        m = re.match(r'^@@ -(\d+)(?:,(\d+))? ', ln)
+        if m and cur:
+            a, n = int(m.group(1)), int(m.group(2) or 1)
+            src = open(os.path.join('/repo', cur)).read()
+            mod = cur[len('supvisors/'):-3].replace('/', '.')
+            # the changed lines sit in the middle of the hunk (3 lines of context on each side)
+            for line in range(a + 2, a + max(n - 2, 3)):
+                q = enclosing(src, line)
+                if q != '<module>':
+                    out.add(f'{mod}:{q}')
+    return out
+
+
+def functions_by_property():
+    out = {}
+    for f in glob.glob(os.path.join(VERIF, 'evidence', 'C*.json')):
+        d = json.load(open(f))
+        fs = set()
+        for fn in d['coverage'].get('functions_under_contract', []):
+            fs.add(fn['function'].split('[')[0])
+            for c in fn.get('callees_inlined(real code)', []):
+                fs.add(c.split('[')[0])
+        out[d['property_id']] = fs
+    return out
+
+
 def main():
     args = sys.argv[1:]
     jobs = 3
@@ -36,13 +75,15 @@ def main():
     write_meta = '--write-meta' in args
     args = [a for a in args if not a.startswith('--')]
     fbp = files_by_property()
+    fnbp = functions_by_property()
     work = []
     for s in seeded.seeds():
         if args and s['id'] not in args:
             continue
         props = [s['property']]
-        for p, fs in sorted(fbp.items()):
-            if p != 'C16' and p not in props and fs & set(s.get('files', [])):
+        tf = touched_functions(s)
+        for p, fs in sorted(fnbp.items()):
+            if p != 'C16' and p not in props and fs & tf:
                 props.append(p)
         for p in props:
             work.append((s, p))
